@@ -184,16 +184,16 @@ theorem layoutPairs_ok (split : Bool) : ∀ (ts : List Bytes) (rc : Nat), (∀ t
 
 /-- **Tokenising what `DeckOutput` laid out gives back the emitted tokens**, with or
 without the line split every seven entries. -/
-theorem tokenize_layout_record (split : Bool) (ts : List Bytes) (h : ∀ t ∈ ts, Atomic t) (next : UInt8) :
-    tokenize (layout split 0 ts ++ [32]) next = ts := by
+theorem tokenize_layout_record (split : Bool) (ts : List Bytes) (h : ∀ t ∈ ts, Atomic t) :
+    tokenize (layout split 0 ts ++ [32]) = ts := by
   rw [layout_eq_pairs]
-  have := tokenize_layout next [32] (by decide) (layoutPairs split 0 ts) (layoutPairs_ok split ts 0 h)
+  have := tokenize_layout [32] (by decide) (layoutPairs split 0 ts) (layoutPairs_ok split ts 0 h)
   unfold layoutToks at this
   rw [this, layoutPairs_snd]
 
 /-- line splitting is invisible to the tokeniser. -/
-theorem tokenize_split_irrelevant (ts : List Bytes) (h : ∀ t ∈ ts, Atomic t) (next : UInt8) :
-    tokenize (layout true 0 ts ++ [32]) next = tokenize (layout false 0 ts ++ [32]) next := by
+theorem tokenize_split_irrelevant (ts : List Bytes) (h : ∀ t ∈ ts, Atomic t) :
+    tokenize (layout true 0 ts ++ [32]) = tokenize (layout false 0 ts ++ [32]) := by
   rw [tokenize_layout_record true ts h, tokenize_layout_record false ts h]
 
 /-! ## parsing what was written -/
@@ -570,11 +570,11 @@ theorem parse_write_record (cv : Conv) (fmt : Bytes → Bytes) (flush split : Bo
     (r : List Vals) (hc : Conf cv fmt items r) (hlen : r.flatten.length ≤ 2147483647)
     (htrail : pend flush false 0 r.flatten = 0 ∨ r.flatten.length ≤ singlePrefix items)
     (hat : ∀ t ∈ emitToks fmt flush false 0 r.flatten, Atomic t ∧ evenQuotes t = true) :
-    parseRecord cv items (writtenRecordText fmt flush split r) 47 = some (r.map (·.map (normP fmt))) := by
+    parseRecord cv items (writtenRecordText fmt flush split r) = some (r.map (·.map (normP fmt))) := by
   unfold parseRecord rawRecord writtenRecordText
   have he : evenQuotes (layout split 0 (emitToks fmt flush false 0 r.flatten) ++ [32]) = true :=
     evenQuotes_append _ _ (evenQuotes_layout split _ 0 (fun t ht => (hat t ht).2)) (by decide)
-  simp only [he, ↓reduceIte, tokenize_layout_record split _ (fun t ht => (hat t ht).1) 47]
+  simp only [he, ↓reduceIte, tokenize_layout_record split _ (fun t ht => (hat t ht).1)]
   exact parse_write_tokens cv fmt flush items r hc hlen htrail
 
 theorem valTok_normVal (fmt : Bytes → Bytes) (hf : ∀ t, fmt (fmt t) = fmt t) (v : Val) :
